@@ -145,7 +145,10 @@ def optsLoop : Nat → Lexer → Opts → Option (Opts × Bool)
         let (length, l) := l.read8
         match l.consume length.toNat with
         | (none, _) => none
-        | (some d, l) => optsLoop fuel l (o.app code d)
+        | (some d, l) =>
+          -- `data == nil || buf.Error() != nil`: a missing length byte left the
+          -- sticky error set although `Consume(0)` succeeded
+          if l.err then none else optsLoop fuel l (o.app code d)
     else some (o, false)
 
 /-- `Options.fromBytesCheckEnd(data, checkEnd)` starting from map `o`. -/
